@@ -437,7 +437,8 @@ class MCNP_Problem:
                     if warning_catch:
                         tag_new_warnings(obj, lines)
                     for line in lines:
-                        fh.write(line + "\n")
+                        # trailing blanks are dropped on reading: do not write them either
+                        fh.write(line.rstrip() + "\n")
                 if terminate:
                     fh.write("\n")
             # cell modifiers that were not in the original data block still belong to it:
@@ -448,7 +449,7 @@ class MCNP_Problem:
             if warning_catch:
                 tag_new_warnings(self.cells, lines)
             for line in lines:
-                fh.write(line + "\n")
+                fh.write(line.rstrip() + "\n")
 
             fh.write("\n")
         self._handle_warnings(warning_catch)
